@@ -31,10 +31,22 @@ def plan(tier, seed):
         parts.append(Part(HR, "closure", {"drv": drv, "depth": 2 if tier == "quick" else 3}, 600 if tier == "quick" else 3000, 120,
                           "navigation closure on the real container stack (real query, metadata, both drivers): flags kept, "
                           "local_only stays inside, read_only refuses every mutator (store unchanged), skel_only yields nothing"))
+    parts.append(Part(HR, "meta_raw", {"drv": "h5"}, 300, 120,
+                      "MetadorMeta.values()/items() of a restricted node hand out no raw (unwrapped) node"))
     return parts
 
 
 def confirm(part, kwargs, native):
+    if part.module == HR and part.func == "meta_raw":
+        r = replay_native(Part(part.module, part.func, dict(part.sel, realfs=1)), repr(kwargs))
+        rp = r.get("replay") or {}
+        if rp.get("ok", False):
+            return {"confirmed": False, "what": "does not reproduce on real h5py files", "stage2": rp}
+        if rp.get("exc"):
+            return {"harness_error": "real-file replay crashed: " + str(rp.get("exc"))[:400]}
+        return {"confirmed": True, "key": "meta-values-raw-node", "stage2": rp,
+                "what": "MetadorMeta.values()/items() of a read_only/local_only node return StoredMetadata records whose .node is the raw "
+                        "bookkeeping dataset (its .file/.parent are unrestricted raw objects): " + str((r.get("notes") or [""])[0])[:200]}
     if part.module == HR:
         # stage 2: the same closure on real h5py files
         r = replay_native(Part(part.module, part.func, dict(part.sel, realfs=1)), repr(kwargs))
